@@ -360,9 +360,10 @@ func main() {
 			}
 			merged.Extra[k] = v
 		}
-		if len(merged.Samples) < 12 {
+		if i == 0 {
+			// samples of the first shard (every sub-check contributes up to 6)
 			for _, s := range r.Samples {
-				if len(merged.Samples) < 12 {
+				if len(merged.Samples) < 40 {
 					merged.Samples = append(merged.Samples, s)
 				}
 			}
